@@ -9,7 +9,7 @@
 (* Units: current in 1e-4 A (so the 1e-3 A tolerance is exactly 10), V, min,*)
 (* energy in 1e-4 W*min.                                                   *)
 (***************************************************************************)
-EXTENDS Integers, Sequences, FiniteSets, TLC, Json
+EXTENDS EVSEDefs, TLC, Json
 
 CONSTANTS
     Kinds,      \* set of EVSE descriptions:
@@ -22,34 +22,11 @@ CONSTANTS
     MaxOps,
     Rec
 
-ATOL == 10      \* 1e-3 A
 
 VARIABLES kind, occ, pilot, evE, chg, nops, last, hist
 vars == <<kind, occ, pilot, evE, chg, nops, last, hist>>
 
-Abs(x) == IF x < 0 THEN -x ELSE x
 Min2(a, b) == IF a <= b THEN a ELSE b
-SeqRange(s) == {s[i] : i \in 1..Len(s)}
-
-\* FiniteRatesEVSE normalises its list: a set, plus 0.
-Levels(k) == SeqRange(k.levels) \cup {0}
-
-\* The allowable set, as the property states it.
-Valid(k, p) ==
-    CASE k.cls = "cont"     -> k.min <= p + ATOL /\ p - ATOL <= k.max
-      [] k.cls = "deadband" -> Abs(p) <= ATOL \/ (k.end <= p + ATOL /\ p - ATOL <= k.max)
-      [] k.cls = "finite"   -> \E l \in Levels(k) : Abs(p - l) <= ATOL
-
-\* What the station advertises to schedulers.
-MaxRate(k) == IF k.cls = "finite" THEN CHOOSE m \in Levels(k) : \A l \in Levels(k) : l <= m ELSE k.max
-MinRate(k) == CASE k.cls = "cont" -> k.min
-                [] k.cls = "deadband" -> 0
-                [] k.cls = "finite" -> LET P == {l \in Levels(k) : l > 0}
-                                       IN IF P = {} THEN 0 ELSE CHOOSE m \in P : \A l \in P : m <= l
-Allowable(k) == CASE k.cls = "cont" -> {k.min, k.max}
-                  [] k.cls = "deadband" -> {k.end, k.max}
-                  [] k.cls = "finite" -> Levels(k)
-Continuous(k) == k.cls # "finite"
 
 Bounds(k) == Allowable(k) \cup {0}
 Probes(k) == {b + o : b \in Bounds(k), o \in Offsets} \cup Extra
